@@ -1,6 +1,6 @@
 # Configuration of ./check C09 (fields: see props.d/C06.py).
 PROP = {
-    "regen_files": ["GenGuards.v"],
+    "regen_files": ["GenGuards.v", "GenSeq.v"],
     "num": 9,
     "runs": [
         {"tag": "c09", "bin": "c09"},
@@ -18,7 +18,7 @@ PROP = {
     "nontrivial": lambda case, obs: case.split()[2] != "0",
     "manifest": {
         "design_ref": "DESIGN.md section 7, C09",
-        "text": "Coq theorems over the hub model of src/sequence.rs, in which every operation is the crate's pointer program in element units (stride N for *mut Self, stride 1 for *mut T) over a memory whose every read is bounds- and initialisation-checked and every write/copy bounds-checked: for every list l and every valid position, append l x = l ++ [x], prepend = x :: l, pop_back (l ++ [x]) = (l, x), pop_front (x :: l) = (x, l), split K l = (firstn K l, skipn K l) for every K <= N, concat l m = l ++ m, remove/swap_remove (checked and unchecked) = Vec::remove/Vec::swap_remove stated as list functions for every idx < N, the bounds panic with exactly one drop per element for every idx >= N; no access fails on any input; removed value + result is a permutation of the input and no destructor runs on success; N - idx - 1 does not underflow under the assert (and would without it); the by-reference halves start at the source, are adjacent, cover it, show the source's own cells and do not interfere when written through. Tie to the code: extracted model vs the real operations on the same cases (exhaustive small scope, boundary lengths, five element types), direct Vec oracle and drop accounting, AddressSanitizer pass over the fixed-identity cases, and in the thorough tier a release build and a Miri pass (N <= 4).",
+        "text": "Coq theorems over the hub model of src/sequence.rs, in which every operation is the crate's pointer program in element units (stride N for *mut Self, stride 1 for *mut T) over a memory whose every read is bounds- and initialisation-checked and every write/copy bounds-checked: for every list l and every valid position, append l x = l ++ [x], prepend = x :: l, pop_back (l ++ [x]) = (l, x), pop_front (x :: l) = (x, l), split K l = (firstn K l, skipn K l) for every K <= N, concat l m = l ++ m, remove/swap_remove (checked and unchecked) = Vec::remove/Vec::swap_remove stated as list functions for every idx < N, the bounds panic with exactly one drop per element for every idx >= N; no access fails on any input; removed value + result is a permutation of the input and no destructor runs on success; N - idx - 1 does not underflow under the assert (and would without it); the by-reference halves start at the source, are adjacent, cover it, show the source's own cells and do not interfere when written through. Tie to the code: the bodies of all twelve functions are regenerated from src/sequence.rs on every run as typed straight-line pointer programs (coq/gen/GenSeq.v; language and interpreter coq/theories/PtrProg.v) and proved, for every array, element and index, to BE the hub functions (coq/theories/PtrTie.v, C09_source_prog_*), so the Vec equalities are also stated and proved of the regenerated programs themselves (C09_source_*_is_*); the bounds assert and shift count are additionally regenerated as guards (GenGuards.v); extracted model vs the real operations on the same cases (exhaustive small scope, boundary lengths, five element types), direct Vec oracle and drop accounting, AddressSanitizer pass over the fixed-identity cases, and in the thorough tier a release build and a Miri pass (N <= 4).",
         "technique": "machine-checked proof in Coq (all lengths, all positions) + extracted-model vs implementation differential correspondence + Vec oracle + AddressSanitizer / Miri",
     },
 }
